@@ -305,11 +305,33 @@ def diff_kind(a, b):
     return "fields-" + "+".join(k for (k, v), (_, w) in zip(fields_of(a), fields_of(b)) if v != w)
 
 
+class Scratch(object):
+    """stand-in context used while shrinking: collects mechanisms, counts nothing"""
+
+    def __init__(self):
+        self.mechs = {}
+
+    def ev(self, n=1):
+        pass
+
+    def count(self, key, n=1):
+        pass
+
+    cls = count
+
+    def exc(self, fn_name, e):
+        return "%s:%s" % (fn_name, raise_site(e))
+
+    def viol(self, mech, wit, detail=None):
+        self.mechs.setdefault(mech, (wit, detail))
+
+
 class Checker(object):
     def __init__(self, ctx, mods):
         self.ctx = ctx
         self.m = mods
         self.seen_mech = set()
+        self.shrinking = True
         self.n_norm = 0
         self.cur_truth = None
         self.cur_case = None
@@ -318,6 +340,31 @@ class Checker(object):
         wit = dict(wit)
         wit.setdefault("truth", self.cur_truth)
         self.ctx.viol(mech, wit, detail)
+        if self.shrinking and mech not in self.seen_mech:
+            self.seen_mech.add(mech)
+            self.shrink_witness(mech, wit)
+
+    def shrink_witness(self, mech, wit):
+        """delete URL tokens (path segments, query items, fragment) while the same mechanism still fires on the same platform"""
+        u, plat, truth = wit.get("url"), wit.get("platform"), wit.get("truth")
+        if not isinstance(u, str) or plat not in PLATFORMS or wit.get("validator_arg") or wit.get("split_result") or wit.get("fn") == "normalize_url":
+            return
+        scratch = Scratch()
+        sub = PlatformChecks(scratch, self.m)
+        sub.shrinking = False
+
+        def fails(cand):
+            scratch.mechs.clear()
+            sub.n_norm = 0
+            sub.check(plat, cand, truth, uncase(plat, cand) if truth is True else None)
+            return mech in scratch.mechs
+
+        if not fails(u):
+            return  # fired on a derived URL (canonical URL of another case): keep as is
+        small = self.shrink_url(u, fails)
+        if small != u:
+            fails(small)
+            self.ctx.viol(mech, dict(scratch.mechs[mech][0], truth=truth), dict(scratch.mechs[mech][1] or {}, shrunk_from=u))
 
     # -- one monitored call ------------------------------------------------------------------------------------
     def call(self, plat, name, fn, u, truth=None, kw=None, convert=False):
@@ -338,20 +385,8 @@ class Checker(object):
             if not isinstance(u, str):
                 wit["url"] = u.geturl()
                 wit["split_result"] = True
-            if mech not in self.seen_mech:
-                self.seen_mech.add(mech)
-                small = self.shrink_url(u, lambda s: self.same_crash(name, fn, s, kw, key))
-                if small != u:
-                    self.viol(mech, dict(wit, url=small), {"exception": type(e).__name__, "shrunk_from": u})
             self.viol(mech, wit, {"exception": type(e).__name__, "message": str(e)[:120]})
             return False, None
-
-    def same_crash(self, name, fn, s, kw, key):
-        try:
-            fn(s, **kw) if kw else fn(s)
-        except Exception as e2:
-            return site_key(name, e2) == key
-        return False
 
     @staticmethod
     def tokens(u):
@@ -395,7 +430,7 @@ class Checker(object):
         head, rest = toks[:1], toks[1:]
         if head[0][0] != "h":
             head, rest = [], toks
-        small = shrink_tokens(rest, lambda r: fails(self.untokens(head + r)), max_calls=60)
+        small = shrink_tokens(rest, lambda r: fails(self.untokens(head + r)), max_calls=80)
         cand = self.untokens(head + small)
         return cand if fails(cand) else u
 
@@ -766,6 +801,10 @@ DIRECTED = [
     C("facebook", FBH, [""], True), C("facebook", FBH, [" "]), C("facebook", FBH, ["l.php"], False, "u=http%3A%2F%2Fa.com%2F&h=AT0"), C("facebook", "https://l.facebook.com", ["l.php"], False, "u=http%3A%2F%2Fa.com%2F"),
     C("facebook", REL, ["some.handle"], False, "rc=p"), C("facebook", REL, ["profile.php"], False, "id=100012241140363"), C("facebook", REL, ["groups"], True), C("facebook", REL, ["some.handle", "posts"]),
     C("facebook", REL, ["some.handle", "posts", "428202057564823"]), C("facebook", "https://fb.me", ["47574"]), C("facebook", "https://www.facebook.co.uk", ["some.handle"]),
+    C("facebook", "facebook.com", ["x", "photos", "y"]), C("facebook", "facebook.com", ["1", "photos", "a.2", "3"]), C("facebook", "facebook.com", ["x", "photos", "a.2", "3"]),
+    C("facebook", "facebook.com", ["x", "photos", "a.", "3"]), C("facebook", "facebook.com", ["x", "photos", "a.2", "", "y"]), C("facebook", "facebook.com", ["x", "posts"]), C("facebook", "facebook.com", ["x", "videos"], True),
+    C("facebook", "facebook.com", ["groups", "posts"], True), C("facebook", "facebook.com", ["groups", "12345678", "posts"], True), C("facebook", "facebook.com", ["groups", "x", "permalink"], True),
+    C("facebook", "facebook.com", ["groups", "1", "permalink"], True), C("facebook", "facebook.com", ["12345678", "posts"], True), C("facebook", "facebook.com", ["."]),
     C("facebook", FBH, ["."]), C("facebook", FBH, ["some.handle", "photos", "", "99"]), C("facebook", FBH, ["123456789", "photos", "a.", "99"]), C("facebook", FBH, ["some.handle", "photos", "a.1234", "", "x"]),
     C("facebook", FBH, ["groups", "photos", "a.1234", "99"]), C("facebook", FBH, ["x.php", "photos", "a.1234", "99"]), C("facebook", FBH, ["", "some.handle"]), C("facebook", FBH, ["some.handle", "videos", "", "x"]),
     C("facebook", FBH, ["", "videos", "99"]), C("facebook", FBH, ["some.handle", "posts", "", "x"]), C("facebook", FBH, ["groups", "", "posts", "99"]), C("facebook", FBH, ["groups", "", "x"]),
